@@ -894,7 +894,16 @@ class NumProxy(SymInt):
     def __class__(self):
         return self._cls
 
+    def __setattr__(self, name, v):
+        if name in ('eng', 'z'):
+            object.__setattr__(self, name, v)
+        else:
+            self.__dict__.setdefault('_attrs', {})[name] = v
+
     def __getattr__(self, name):
+        a = self.__dict__.get('_attrs')
+        if a is not None and name in a:
+            return a[name]
         v = getattr(object.__getattribute__(self, '_cls'), name)
         if isinstance(v, property):
             return v.fget(self)
@@ -984,7 +993,16 @@ class RealProxy(SymReal):
     def __class__(self):
         return self._cls
 
+    def __setattr__(self, name, v):
+        if name in ('eng', 'z'):
+            object.__setattr__(self, name, v)
+        else:
+            self.__dict__.setdefault('_attrs', {})[name] = v
+
     def __getattr__(self, name):
+        a = self.__dict__.get('_attrs')
+        if a is not None and name in a:
+            return a[name]
         v = getattr(object.__getattribute__(self, '_cls'), name)
         if isinstance(v, property):
             return v.fget(self)
@@ -1626,10 +1644,14 @@ def str_to_int(s, base=10):
             sign = -1; chars = chars[1:]
         elif SymBool(eng, c == 43):
             chars = chars[1:]
-    if base == 16 and len(chars) > 2 and chars[0] == '0' and chars[1] in ('x', 'X'):
-        chars = chars[2:]
-    if base == 8 and len(chars) > 2 and chars[0] == '0' and chars[1] in ('o', 'O'):
-        chars = chars[2:]
+    if base in (16, 8, 2) and len(chars) >= 2 and isinstance(chars[0], str) and chars[0] == '0':
+        marks = {16: 'xX', 8: 'oO', 2: 'bB'}[base]
+        c1 = chars[1]
+        if isinstance(c1, str):
+            if c1 in marks:
+                chars = chars[2:]
+        elif SymBool(eng, z3.Or([c1 == ord(m) for m in marks])):
+            chars = chars[2:]
     if not chars:
         raise ValueError("invalid literal for int() with base %d" % base)
     total = None
